@@ -341,12 +341,9 @@ func emit(o *hlib.Out, jobs []*job) {
 		if j.restarts > 0 {
 			o.Stat("worker_restarts", j.restarts)
 		}
-		var bpath, bfmt string
 		if strings.HasPrefix(j.text, "batch ") {
-			b, _ := parseBatch(j.text)
-			bpath, bfmt = b.path, b.format
 			keys := make([]string, 0, len(j.hist))
-			n := 0
+			n, mutated := 0, 0
 			for k, c := range j.hist {
 				keys = append(keys, k)
 				n += c
@@ -362,8 +359,11 @@ func emit(o *hlib.Out, jobs []*job) {
 				o.Stat("class_"+c, j.hist[k])
 				o.Stat("kind_"+kind, j.hist[k])
 				if kind != "id" {
-					o.Class(bpath + "|" + bfmt + "|" + kind + "|" + obs)
+					mutated += j.hist[k]
 				}
+			}
+			if mutated > 0 {
+				o.Class(j.text) // a batch line with at least one mutated input is one distinct non-trivial case
 			}
 			o.Case(j.text, sb.String())
 			if n > 0 && j.id%97 == 0 {
@@ -377,7 +377,9 @@ func emit(o *hlib.Out, jobs []*job) {
 			case strings.HasPrefix(op, "core "):
 				o.Stat("core_cases", 1)
 				o.Stat("core_class_"+c, 1)
-				o.Class(op + "|" + obs)
+				if !strings.HasPrefix(op, "core ok ") {
+					o.Class(op)
+				}
 			case strings.HasPrefix(op, "skip "):
 				o.Stat("batch_jobs_abandoned_resource", 1)
 			case strings.HasPrefix(op, "i "):
@@ -387,13 +389,15 @@ func emit(o *hlib.Out, jobs []*job) {
 				o.Stat("decodes", 1)
 				o.Stat("class_"+c, 1)
 			}
+			if ws := strings.Fields(op); len(ws) == 5 && (ws[0] == "d" || ws[0] == "i") && ws[2] != "id" {
+				o.Class(op)
+			}
 			if c == "panic" {
 				key := strings.TrimPrefix(obs, "panic:")
 				if panics[key] == 0 {
 					o.Sample(op + " => " + obs)
 				}
 				panics[key]++
-				o.Class("panic|" + key)
 			}
 			if c == "resource" {
 				fmt.Fprintf(os.Stderr, "c06: resource: %s => %s\n", op, obs)
